@@ -118,6 +118,35 @@ Theorem C09_unfiltered_values_refuted :
   processed_unfiltered nat R 0%nat keep [0%nat; 1%nat] [10; 20] = [(1%nat, 10)].
 Proof. exact unfiltered_values_refuted. Qed.
 
+
+(* generalised first moment (any dof weight whose Gauss-point interpolation is known): the Hermitian
+   beam identities of coq/props/C09/C09_hermite.v are instances *)
+Theorem C09_first_moment_with : forall (x : nat -> R) (xp : lelem -> gpt -> R) es ns, NoDup ns ->
+  (forall e n, In e es -> In n (lnodes e) -> In n ns) ->
+  (forall e g, In e es -> In g (lpts e) -> xgauss x e g = xp e g) ->
+  Rsum (map (fun n => x n * vec (contribs F_call es) n) ns) = quad_sum es (fun e g => xp e g * fv g).
+Proof. exact first_moment_with. Qed.
+
+(* pressure on a planar face set: every nodal normal returned by the averaging/normalising of
+   Mesh.Get_normals equals the face normal ... *)
+Theorem C09_nodal_normal_planar : forall (n : R * R * R) (areas : list R) (count : R),
+  vnorm n = 1 -> 0 < count -> 0 < Rsum areas ->
+  vnormalize (vscale (/ count) (vsum (map (fun a => vscale a n) areas))) = n.
+Proof. exact nodal_normal_planar. Qed.
+
+(* ... hence each component of the load is the nodal array with the same value v = p * n_d on every
+   node and its resultant is v * area (area = sum_e sum_p w_p|J_p|): resultant = p * area * n, with
+   the sign of n given by the orientation of the boundary elements (normal_e = +area_e * n) *)
+Theorem C09_pressure_planar_resultant : forall (v : R) es ns, NoDup ns ->
+  (forall e, In e es -> wf e /\ pou e) ->
+  (forall e n, In e es -> In n (lnodes e) -> In n ns) ->
+  (forall e i, In e es -> (i < nPe e)%nat -> nthR i (fnod e) = v) ->
+  Rsum (map (vec (contribs F_nodal_written es)) ns) = v * quad_sum es (fun _ _ => 1).
+Proof. exact pressure_planar_resultant. Qed.
+
+Print Assumptions C09_nodal_normal_planar.
+Print Assumptions C09_pressure_planar_resultant.
+
 Example C09_select_set_instance :
   select [[0;1];[1;2];[2;3]]%nat [2;0;1;1;0]%nat true = select [[0;1];[1;2];[2;3]]%nat [0;1;2]%nat true.
 Proof. reflexivity. Qed.
